@@ -290,7 +290,7 @@ def replay_chain(ctx, hist, origin):
     from tenpy.linalg.truncation import TruncationError
     acc = TruncationError()
     pending = None
-    rng = random.Random(ctx.seed)
+    e_acc = 0.0  # bound on the rounding error of acc.ov: products amplify the error of a factor by the other factor
     for step, st in enumerate(hist):
         l, o = st['l'], st['o']
         op = l['op']
@@ -322,10 +322,12 @@ def replay_chain(ctx, hist, origin):
             new = acc + pending
             if (acc.eps, acc.ov, pending.eps, pending.ov) != before:
                 fail = ('add-mutates-operand', (acc.eps, acc.ov, pending.eps, pending.ov), before)
+            e_p = 1e-14 * max(1.0, abs(pending.ov))
+            e_acc = abs(before[1]) * e_p + abs(pending.ov) * e_acc + e_acc * e_p + 1e-15
             acc = new
             exp_eps, exp_ov = rat(o['acc']['eps']), rat(o['acc']['ov'])
-            if fail is None and not (close(acc.eps, exp_eps, atol=1e-13) and close(acc.ov, exp_ov, atol=1e-13)
-                                     and close(acc.ov_err, 1.0 - exp_ov, atol=1e-13)):
+            if fail is None and not (close(acc.eps, exp_eps, atol=1e-13) and close(acc.ov, exp_ov, atol=1e-13 + e_acc)
+                                     and close(acc.ov_err, 1.0 - exp_ov, atol=1e-13 + e_acc)):
                 fail = ('add', (float(acc.eps), float(acc.ov)), (exp_eps, exp_ov))
         elif op == 'decompose':
             return True
